@@ -81,6 +81,26 @@ def malformed(rnd, count):
     return out
 
 
+def ext_chains(rnd):
+    """present-word chains that run up to, onto and over the announced header length, with capture bytes following the
+    header (a chain must be bounded by it_len, not by the capture)"""
+    out = []
+    for k in (1, 2, 3, 4):
+        for last_ext in (True, False):
+            words = []
+            for i in range(k):
+                w = 0x80000000 if (i < k - 1 or last_ext) else 0
+                if rnd.random() < 0.3:
+                    w |= 1 << 29
+                words.append(w)
+            chain = b"".join(w.to_bytes(4, "little") for w in words)
+            for it_len in range(8, 8 + 4 * k + 5):
+                for extra in (0, 1, 3, 4, 8, 30):
+                    tail = bytes(rnd.getrandbits(7) for _ in range(extra))
+                    out.append(bytes([0, 0]) + it_len.to_bytes(2, "little") + chain + tail)
+    return out
+
+
 def check(ctx):
     ctx.rule = ("headers built by an independent Python implementation of the radiotap placement rule: every subset of the 12 decoded fields (2^12, exhaustive) and %s of all 23 defined fields of the first present word with random values, "
                 "libwifi_parse_radiotap_rssi on covered headers with one, several and no antenna-signal fields; multi-word headers (namespace reset with per-antenna signal/antenna pairs, vendor namespaces with arbitrary skip lengths, plain EXT continuation), every malformed class (version, it_len < 8, > available, > 255, truncation); "
@@ -115,6 +135,24 @@ def check(ctx):
     sig = [{"fields": sorted(set(rnd.sample(range(23), rnd.randrange(0, 5))) | ({5} if rnd.random() < 0.8 else set()))} for _ in range(600)]
     rs = [l for l in multiword(rnd, 600 if ctx.tier == "quick" else 6000) + ["rtp " + hexs(rtbuild.build([w], rnd)) for w in sig] if covered(l)]
     fw.run_suite(ctx, exe, "S-rtp/rssi", ["rssi " + l.split()[1] for l in rs], "radiotap signal shortcut")
+    # every value of the 16-bit channel frequency (band and channel number are derived from it), alone and next to a signal
+    af = []
+    for f in range(65536):
+        cf = rnd.choice([0, 0xffff, 0x00a0, 0x0140, rnd.getrandbits(16)])
+        if f % 2:
+            af.append("rtp " + hexs(bytes([0, 0, 12, 0, 8, 0, 0, 0]) + f.to_bytes(2, "little") + cf.to_bytes(2, "little")))
+        else:
+            af.append("rtp " + hexs(bytes([0, 0, 13, 0, 0x28, 0, 0, 0]) + f.to_bytes(2, "little") + cf.to_bytes(2, "little") + bytes([rnd.getrandbits(8)])))
+    fw.run_suite(ctx, exe, "S-rtp/all-frequencies", af, "radiotap decode of every channel frequency")
+    # long per-antenna chains: up to 40 namespace resets with signal / antenna pairs (the record keeps the first 16)
+    ch = []
+    for n in list(range(12, 24)) + [32, 40]:
+        for shape in ([5, 11], [5], [11, 5, 2]):
+            words = [{"fields": [1, 5], "reset": True}] + [{"fields": shape, "reset": True} for _ in range(n - 1)] + [{"fields": shape}]
+            ch.append("rtp " + hexs(rtbuild.build(words, rnd)))
+            ch.append("rssi " + hexs(rtbuild.build(words, rnd)))
+    fw.run_suite(ctx, exe, "S-rtp/antenna-chains", ch, "radiotap decode of long per-antenna chains")
+    fw.run_suite(ctx, exe, "S-rtp/ext-chains", sorted({"rtp " + b.hex() for b in ext_chains(rnd)}), "radiotap decode of present-word chains around the announced length")
     fw.run_suite(ctx, exe, "S-rtp/malformed", malformed(rnd, 2000 if ctx.tier == "quick" else 30000), "radiotap decode")
     # alignment is relative to the start of the header, not to the address of the capture
     mis = subsets_lines(rnd, rnd.sample(range(1 << 23), 700)) + multiword(rnd, 300)
